@@ -1,33 +1,60 @@
 """C05 — QuantileLinearRegression fits and scores the same pinball loss.
 
-  C05.a  orientation: abstract interpretation of `_epsilon` and of its
-         consumers over the domain {over-prediction, under-prediction} ->
-         linear polynomials in q.  The property's loss needs weight (1-q) on
-         over-predictions and q on under-predictions, in fit (IRLS weights and
-         error) and in score (times 2, divided by n).
-  C05.b  fit_intercept=False => intercept_ is the literal 0 and no ones column;
-         the inner LinearRegression gets fit_intercept=False, positive=self.positive
+Decided by an abstract interpretation of `fit` and `score` (and of every
+repository function they call: `_epsilon`, the IRLS step wherever it lives),
+not by matching statements.  Arrays are abstracted to
+
+    value[i] = c(side_i) * |residual_i|^de * sample_weight_i^ds
+
+where side_i is over-prediction (f > y) or under-prediction (f < y), c(side) is a
+linear polynomial in the quantile q, and de, ds are integer degrees.  Targets,
+predictions, signed residuals, signs, boolean side masks, data-independent
+thresholds, sums/means and the inner least-squares solver are further abstract
+values.  Branches on `q != 0.5`, on `x is None` and on `mult is not None` are
+decided by the analysed configuration (q generic / q = 1/2, weights given /
+absent); every other branch is explored on both sides and joined; loops run to
+a steady state.  Local names, temporaries, helper extraction or inlining,
+argument passing style and branch layout therefore do not matter.
+
+  C05.a  loss orientation and scale
+         fit:   the weights handed to the inner least squares are, in steady
+                state, k * (over: 1-q, under: q) * sample_weight / |residual|
+                (k > 0 constant): an IRLS step for the pinball loss of q;
+                the monitored error is k * (1-q | q) * sample_weight * |residual|
+         score: returns sum(2 * (1-q | q) * sample_weight * |residual|) / n,
+                and the (weighted) mean absolute error of (y, prediction) at q = 0.5
+  C05.c  IRLS bookkeeping: degrees of |residual| and sample_weight as above in
+         both weight configurations; the clipping threshold of the residuals is
+         data-independent (hyper-parameter delta); the inner solver is fitted on
+         the targets given to fit
+  C05.b  fit_intercept=False => intercept_ is the literal 0 and the design
+         matrix is X itself; with intercept, the ones column and the coefficient
+         taken as intercept_ agree; the inner LinearRegression gets
+         fit_intercept=False and positive=self.positive
 """
 
 from __future__ import annotations
 
 import ast
+from dataclasses import dataclass
 from fractions import Fraction
-from typing import Dict, Optional, Tuple
+from typing import Dict, List, Optional, Tuple
 
 from engine.src import FunctionInfo, own_nodes, own_nodes_incl_lambda, src_of, AnalysisError
-from engine.util import is_self_attr, kwarg, const_value, enclosing_tests, assign_targets
-from engine.dataflow import ReachingDefs
+from engine.guards import cond_text, atoms
+from .common import resolve_call
+from .sem import expander, ctext, conds_at, calls, bind, stmt_of
 
 RULES = {
-    "C05.a": "loss orientation: _epsilon's multiplier and every consumer's transform give weight (1-q) to over-predictions and q to under-predictions (abstract domain: sign -> linear polynomial in q)",
-    "C05.c": "IRLS bookkeeping as monomial degrees: weight = sample_weight^1 * |residual|^-1, monitored error = sample_weight^1 * |residual|^1; clipping threshold depends on delta only",
-    "C05.b": "fit_intercept=False: zero intercept, no ones column; inner LinearRegression(fit_intercept=False, positive=self.positive)",
+    "C05.a": "loss orientation and scale by abstract interpretation (side -> polynomial in q): IRLS weights and monitored error proportional to (over: 1-q, under: q); score = 2 x mean pinball loss, MAE at q = 0.5",
+    "C05.c": "IRLS bookkeeping by abstract interpretation (degrees of |residual| and sample_weight, with and without weights); clipping threshold data-independent; inner solver fitted on the given targets",
+    "C05.b": "fit_intercept=False: zero intercept, design matrix X; ones column and intercept coefficient agree; inner LinearRegression(fit_intercept=False, positive=self.positive)",
 }
 
 MOD = "mlinsights.mlmodel.quantile_regression"
 CLS = "QuantileLinearRegression"
 
+# ---------------------------------------------------------------- polynomials
 Poly = Tuple[Fraction, Fraction]  # c0 + c1*q
 
 
@@ -35,435 +62,917 @@ class Unsupported(Exception):
     pass
 
 
-def p_const(c) -> Poly:
-    return (Fraction(c), Fraction(0))
+def P(c0, c1=0) -> Poly:
+    return (Fraction(c0), Fraction(c1))
 
 
-Q: Poly = (Fraction(0), Fraction(1))
-
-
-def p_sub(a: Poly, b: Poly) -> Poly:
-    return (a[0] - b[0], a[1] - b[1])
-
-
-def p_add(a: Poly, b: Poly) -> Poly:
+def p_add(a, b):
     return (a[0] + b[0], a[1] + b[1])
 
 
-def p_mul(a: Poly, b: Poly) -> Poly:
+def p_sub(a, b):
+    return (a[0] - b[0], a[1] - b[1])
+
+
+def p_mul(a, b):
     if a[1] != 0 and b[1] != 0:
         raise Unsupported("quadratic in q")
     return (a[0] * b[0], a[0] * b[1] + a[1] * b[0])
 
 
-def p_fmt(a: Poly) -> str:
+def p_div(a, b):
+    if b[1] != 0 or b[0] == 0:
+        raise Unsupported("division by a polynomial in q")
+    return (a[0] / b[0], a[1] / b[0])
+
+
+def p_fmt(a) -> str:
     c0, c1 = a
     if c1 == 0:
         return str(c0)
-    s = f"{c1}*q" if c1 != 1 else "q"
+    s = "q" if c1 == 1 else ("-q" if c1 == -1 else f"{c1}*q")
     if c0 != 0:
-        s = f"{c0}{'+' if c1 > 0 else ''}{s}" if c1 != 1 else f"{c0}+q"
+        return f"{c0}{'+' if c1 > 0 else ''}{s}"
     return s
 
 
-Orient = Dict[str, Poly]  # {'over': poly, 'under': poly}
+# ------------------------------------------------------------ abstract values
+@dataclass(frozen=True)
+class Arr:
+    over: Poly
+    under: Poly
+    de: int = 0  # degree of |residual|
+    ds: int = 0  # degree of sample_weight
+    clip: str = ""  # "", "hyper" (clipped by a data-independent threshold), "data"
+    taint: bool = False  # scaled by something data-dependent the domain cannot express
+
+    def fmt(self):
+        s = f"(over: {p_fmt(self.over)}, under: {p_fmt(self.under)}) * |residual|^{self.de} * sample_weight^{self.ds}"
+        if self.taint:
+            s += " * <data-dependent factor>"
+        return s
 
 
-def o_fmt(o: Orient) -> str:
-    return f"(over: {p_fmt(o['over'])}, under: {p_fmt(o['under'])})"
+@dataclass(frozen=True)
+class Diff:
+    over_pos: bool  # True: positive where the prediction is above the target
 
 
-def _scalar(e: ast.AST, qnames) -> Poly:
-    """scalar expression in the quantile"""
-    if isinstance(e, ast.Constant) and isinstance(e.value, (int, float)) and not isinstance(e.value, bool):
-        return p_const(Fraction(str(e.value)))
-    if isinstance(e, ast.Name) and e.id in qnames:
-        return Q
-    if is_self_attr(e, "quantile"):
-        return Q
-    if isinstance(e, ast.BinOp):
-        a, b = _scalar(e.left, qnames), _scalar(e.right, qnames)
-        if isinstance(e.op, ast.Sub):
-            return p_sub(a, b)
-        if isinstance(e.op, ast.Add):
-            return p_add(a, b)
-        if isinstance(e.op, ast.Mult):
-            return p_mul(a, b)
-    if isinstance(e, ast.UnaryOp) and isinstance(e.op, ast.USub):
-        a = _scalar(e.operand, qnames)
-        return (-a[0], -a[1])
-    raise Unsupported(f"scalar {src_of(e)}")
+@dataclass(frozen=True)
+class Sign:
+    over_pos: bool
 
 
-def interpret_epsilon(fn: ast.FunctionDef) -> Tuple[Orient, str]:
-    """orientation of the second value returned by _epsilon; 'over' means
-    y_pred > y_true."""
-    params = [a.arg for a in fn.args.args]
-    if "y_true" not in params or "y_pred" not in params or "quantile" not in params:
-        raise AnalysisError("_epsilon: parameters y_true/y_pred/quantile not found")
-    diff_name = sign_name = mult_name = None
-    diff_pos_is_over = None
-    orient: Optional[Orient] = None
-    stmts = [s for s in ast.walk(fn) if isinstance(s, (ast.Assign, ast.AugAssign))]
-    stmts.sort(key=lambda s: (s.lineno, s.col_offset))
-    for s in stmts:
-        if isinstance(s, ast.Assign) and len(s.targets) == 1 and isinstance(s.targets[0], ast.Name):
-            v = s.value
-            t = s.targets[0].id
-            if isinstance(v, ast.BinOp) and isinstance(v.op, ast.Sub) and isinstance(v.left, ast.Name) and isinstance(v.right, ast.Name) and {v.left.id, v.right.id} == {"y_true", "y_pred"}:
-                diff_name = t
-                diff_pos_is_over = v.left.id == "y_pred"
-            elif isinstance(v, ast.Call) and src_of(v.func).endswith("sign") and v.args and isinstance(v.args[0], ast.Name) and v.args[0].id == diff_name:
-                sign_name = t
-            elif isinstance(v, ast.Call) and src_of(v.func).endswith("ones"):
-                mult_name = t
-                orient = {"over": p_const(1), "under": p_const(1)}
-        elif isinstance(s, ast.AugAssign) and isinstance(s.target, ast.Subscript) and isinstance(s.target.value, ast.Name) and s.target.value.id == mult_name and orient is not None:
-            idx = s.target.slice
-            if not (isinstance(idx, ast.Compare) and len(idx.ops) == 1 and isinstance(idx.left, ast.Name) and idx.left.id in (sign_name, diff_name) and isinstance(idx.comparators[0], ast.Constant) and idx.comparators[0].value == 0):
-                raise Unsupported(f"mask {src_of(idx)}")
-            pos = isinstance(idx.ops[0], (ast.Gt, ast.GtE))
-            neg = isinstance(idx.ops[0], (ast.Lt, ast.LtE))
-            if not (pos or neg):
-                raise Unsupported(f"mask {src_of(idx)}")
-            side = "over" if (pos == diff_pos_is_over) else "under"
-            f = _scalar(s.value, {"quantile"})
-            if isinstance(s.op, ast.Mult):
-                orient[side] = p_mul(orient[side], f)
-            else:
-                raise Unsupported("mult update is not a multiplication")
-        elif isinstance(s, ast.Assign) and len(s.targets) == 1 and isinstance(s.targets[0], ast.Subscript) and isinstance(s.targets[0].value, ast.Name) and s.targets[0].value.id == mult_name and orient is not None:
-            idx = s.targets[0].slice
-            if isinstance(idx, ast.Compare) and len(idx.ops) == 1 and isinstance(idx.left, ast.Name) and idx.left.id in (sign_name, diff_name):
-                pos = isinstance(idx.ops[0], (ast.Gt, ast.GtE))
-                side = "over" if (pos == diff_pos_is_over) else "under"
-                orient[side] = _scalar(s.value, {"quantile"})
-    if orient is None or diff_name is None:
-        raise Unsupported("could not find diff / mult in _epsilon")
-    # which position of the returned tuple is mult
-    for r in ast.walk(fn):
-        if isinstance(r, ast.Return) and isinstance(r.value, ast.Tuple) and len(r.value.elts) == 2:
-            if not (isinstance(r.value.elts[1], ast.Name) and r.value.elts[1].id == mult_name):
-                raise Unsupported("_epsilon does not return (epsilon, mult)")
-    return orient, mult_name
+@dataclass(frozen=True)
+class Mask:
+    side: str  # 'over' | 'under'
 
 
-def eval_orient(e: ast.AST, env: Dict[str, Orient]) -> Orient:
-    """array expression over the orientation domain"""
-    if isinstance(e, ast.Name) and e.id in env:
-        return env[e.id]
-    if isinstance(e, ast.BinOp):
-        def side(x):
-            try:
-                return ("o", eval_orient(x, env))
-            except Unsupported:
-                return ("s", _scalar(x, set()))
-        a, b = side(e.left), side(e.right)
-        if a[0] == "s" and b[0] == "s":
-            raise Unsupported("scalar")
-        out = {}
-        for k in ("over", "under"):
-            x = a[1][k] if a[0] == "o" else a[1]
-            y = b[1][k] if b[0] == "o" else b[1]
-            if isinstance(e.op, ast.Sub):
-                out[k] = p_sub(x, y)
-            elif isinstance(e.op, ast.Add):
-                out[k] = p_add(x, y)
-            elif isinstance(e.op, ast.Mult):
-                out[k] = p_mul(x, y)
-            else:
-                raise Unsupported("operator")
+@dataclass(frozen=True)
+class Scal:
+    p: Poly
+
+
+@dataclass(frozen=True)
+class Hyper:  # data-independent scalar (hyper-parameter, size, literal string ...)
+    name: str = ""
+
+
+@dataclass(frozen=True)
+class Thresh:  # array of a data-independent (or, tainted, data-dependent) threshold
+    taint: bool = False
+
+
+@dataclass(frozen=True)
+class Role:
+    kind: str  # 'X' | 'target' | 'pred'
+
+
+@dataclass(frozen=True)
+class NoneV:
+    pass
+
+
+@dataclass(frozen=True)
+class Opaque:
+    taint: bool = True
+    text: str = ""
+
+
+@dataclass(frozen=True)
+class Tup:
+    items: tuple
+
+
+@dataclass(frozen=True)
+class Sum:
+    arr: Arr
+    div: str = ""  # "" | "n" | "other"
+
+
+@dataclass(frozen=True)
+class Inner:  # the inner least-squares solver
+    pass
+
+
+@dataclass(frozen=True)
+class MAE:
+    a: object
+    b: object
+    sw: object
+
+
+@dataclass(frozen=True)
+class Closure:
+    qualname: str
+
+
+@dataclass(frozen=True)
+class SelfV:
+    pass
+
+
+ONE = Arr(P(1), P(1))
+
+
+def is_none(v) -> Optional[bool]:
+    if isinstance(v, NoneV):
+        return True
+    if isinstance(v, (Arr, Diff, Sign, Mask, Scal, Hyper, Thresh, Role, Tup, Sum, Inner, MAE, SelfV)):
+        return False
+    return None
+
+
+def join(a, b):
+    if a == b:
+        return a
+    if isinstance(a, Tup) and isinstance(b, Tup) and len(a.items) == len(b.items):
+        return Tup(tuple(join(x, y) for x, y in zip(a.items, b.items)))
+    return Opaque(True, "join")
+
+
+class Returned(Exception):
+    pass
+
+
+class Interp:
+    """one configuration: q generic or q = 1/2; sample weights given or absent"""
+
+    def __init__(self, repo, half: bool, sw_given: bool):
+        self.repo = repo
+        self.half = half
+        self.sw_given = sw_given
+        self.obs: List[Tuple[str, FunctionInfo, ast.AST, tuple, int]] = []  # kind, fi, node, values, loop iteration
+        self.problems: List[Tuple[FunctionInfo, ast.AST, str]] = []
+        self.iter = 0
+        self.depth = 0
+        self.visited = set()
+        self.steady = 0
+
+    # quantile
+    def q(self) -> Scal:
+        return Scal(P(Fraction(1, 2))) if self.half else Scal(P(0, 1))
+
+    # ------------------------------------------------------------- functions
+    def run_entry(self, fi: FunctionInfo):
+        params = fi.named_params
+        env: Dict[str, object] = {}
+        if params and params[0] == "self":
+            env["self"] = SelfV()
+            rest = params[1:]
+        else:
+            rest = params
+        roles = [Role("X"), Role("target"), (Arr(P(1), P(1), 0, 1) if self.sw_given else NoneV())]
+        for name, v in zip(rest, roles):
+            env[name] = v
+        return self.run_body(fi, env)
+
+    def run_body(self, fi: FunctionInfo, env):
+        self.visited.add(fi.qualname)
+        rets: List[object] = []
+        self.exec_block(fi.node.body, env, fi, rets)
+        if not rets:
+            return NoneV()
+        out = rets[0]
+        for r in rets[1:]:
+            out = join(out, r)
         return out
-    raise Unsupported(src_of(e))
 
+    def call_function(self, callee: FunctionInfo, call: ast.Call, fi: FunctionInfo, env, recv):
+        if self.depth > 6:
+            return Opaque(True, "depth")
+        params = list(callee.named_params)
+        is_static = any(isinstance(d, ast.Name) and d.id in ("staticmethod",) for d in callee.node.decorator_list)
+        new: Dict[str, object] = {}
+        if callee.parent is not None:
+            new.update(env)  # closure: free variables of a nested function
+        if callee.cls is not None and callee.parent is None and not is_static and params and params[0] in ("self", "cls"):
+            new[params[0]] = SelfV()
+            # Class.m(self, ...) passes self explicitly
+            explicit = isinstance(call.func, ast.Attribute) and not isinstance(recv, SelfV)
+            params = params[1:] if not explicit else params
+        a_ = callee.node.args
+        pos = [x.arg for x in a_.posonlyargs + a_.args]
+        for name, d in zip(pos[len(pos) - len(a_.defaults):], a_.defaults):
+            new[name] = self.eval(d, {}, callee)
+        for x, d in zip(a_.kwonlyargs, a_.kw_defaults):
+            if d is not None:
+                new[x.arg] = self.eval(d, {}, callee)
+        for i, a in enumerate(call.args):
+            if isinstance(a, ast.Starred):
+                return Opaque(True, "starred")
+            if i < len(params):
+                new[params[i]] = self.eval(a, env, fi)
+        for kw in call.keywords:
+            if kw.arg is None:
+                return Opaque(True, "**kw")
+            new[kw.arg] = self.eval(kw.value, env, fi)
+        self.depth += 1
+        try:
+            return self.run_body(callee, new)
+        finally:
+            self.depth -= 1
 
-REQUIRED = {"over": p_sub(p_const(1), Q), "under": Q}
+    # ------------------------------------------------------------ statements
+    def exec_block(self, body, env, fi, rets) -> bool:
+        """returns True when the block always terminates (return/raise)"""
+        for s in body:
+            if self.exec_stmt(s, env, fi, rets):
+                return True
+        return False
 
-
-def _proportional(o: Orient, factor: Fraction) -> bool:
-    return o["over"] == p_mul(REQUIRED["over"], p_const(factor)) and o["under"] == p_mul(REQUIRED["under"], p_const(factor))
-
-
-def check_a(ck, repo):
-    ci = repo.cls(MOD, CLS)
-    eps = ci.methods.get("_epsilon")
-    fit = ci.methods.get("fit")
-    score = ci.methods.get("score")
-    if eps is None or fit is None or score is None:
-        raise AnalysisError("anchor vanished: QuantileLinearRegression._epsilon/fit/score")
-    try:
-        base, _ = interpret_epsilon(eps.node)
-    except Unsupported as u:
-        ck.unknown("C05.a", eps, "_epsilon", f"cannot interpret: {u}")
-        return
-    ck.holds("C05.a", eps, "_epsilon -> mult", f"multiplier orientation {o_fmt(base)} (over = y_pred > y_true)")
-    consumers = []
-    for fi in [fit, score] + [f for f in repo.all_functions.values() if f.parent is fit]:
-        for s in own_nodes(fi.node):
-            if isinstance(s, ast.Assign) and isinstance(s.value, ast.Call) and src_of(s.value.func).endswith("_epsilon"):
-                consumers.append((fi, s))
-    if len(consumers) < 2:
-        ck.unknown("C05.a", fit, "consumers of _epsilon", f"expected the IRLS step and score to call _epsilon, found {len(consumers)}")
-        return
-    for fi, s in consumers:
-        call = s.value
-        tgt = s.targets[0]
-        if not (isinstance(tgt, ast.Tuple) and len(tgt.elts) == 2 and all(isinstance(e, ast.Name) for e in tgt.elts)):
-            ck.unknown("C05.a", fi, s, "result of _epsilon is not unpacked as (epsilon, mult)")
-            continue
-        eps_name, mult_name = tgt.elts[0].id, tgt.elts[1].id
-        # argument roles: first = targets, second = predictions
-        a0, a1 = (call.args + [None, None])[:2]
-        role_ok, why = _roles(repo, fi, a0, a1)
-        if not role_ok:
-            ck.violated("C05.a", fi, s, f"_epsilon(y_true, y_pred, ...) is called with {why}: over/under-prediction are exchanged")
-            continue
-        # transforms applied afterwards to names that carry the loss / the weights
-        env: Dict[str, Orient] = {mult_name: dict(base)}
-        carried: Dict[str, Orient] = {}
-        later = [x for x in own_nodes(fi.node) if isinstance(x, ast.AugAssign) and x.lineno > s.lineno and isinstance(x.target, ast.Name)]
-        later.sort(key=lambda x: x.lineno)
-        ok = True
-        for x in later:
-            if mult_name not in {n.id for n in ast.walk(x.value) if isinstance(n, ast.Name)}:
-                continue
-            if not isinstance(x.op, ast.Mult):
-                ck.unknown("C05.a", fi, x, "multiplier is not applied by multiplication")
-                ok = False
-                continue
-            try:
-                o = eval_orient(x.value, env)
-            except Unsupported as u:
-                ck.unknown("C05.a", fi, x, f"cannot interpret {u}")
-                ok = False
-                continue
-            prev = carried.get(x.target.id, {"over": p_const(1), "under": p_const(1)})
-            try:
-                carried[x.target.id] = {k: p_mul(prev[k], o[k]) for k in o}
-            except Unsupported as u:
-                ck.unknown("C05.a", fi, x, f"cannot interpret {u}")
-                ok = False
-                continue
-            want = Fraction(2) if fi is score else Fraction(1)
-            if _proportional(carried[x.target.id], want):
-                ck.holds("C05.a", fi, x, f"'{x.target.id}' carries weights {o_fmt(carried[x.target.id])} = {want} x pinball loss of q")
+    def exec_stmt(self, s, env, fi, rets) -> bool:
+        if isinstance(s, ast.Expr):
+            self.eval(s.value, env, fi)
+        elif isinstance(s, ast.Assign):
+            v = self.eval(s.value, env, fi)
+            for t in s.targets:
+                self.assign(t, v, env, fi, s)
+        elif isinstance(s, ast.AnnAssign):
+            if s.value is not None:
+                self.assign(s.target, self.eval(s.value, env, fi), env, fi, s)
+        elif isinstance(s, ast.AugAssign):
+            self.augassign(s, env, fi)
+        elif isinstance(s, ast.Return):
+            rets.append(self.eval(s.value, env, fi) if s.value is not None else NoneV())
+            return True
+        elif isinstance(s, ast.Raise):
+            return True
+        elif isinstance(s, ast.If):
+            t = self.truth(s.test, env, fi)
+            if t is True:
+                return self.exec_block(s.body, env, fi, rets)
+            if t is False:
+                return self.exec_block(s.orelse, env, fi, rets)
+            e1, e2 = dict(env), dict(env)
+            r1, r2 = [], []
+            d1 = self.exec_block(s.body, e1, fi, r1)
+            d2 = self.exec_block(s.orelse, e2, fi, r2)
+            # a branch that only raises contributes nothing; returned values are kept
+            rets.extend(r1)
+            rets.extend(r2)
+            if d1 and d2:
+                return True
+            if d1:
+                env.clear(); env.update(e2)
+            elif d2:
+                env.clear(); env.update(e1)
             else:
-                ck.violated(
-                    "C05.a",
-                    fi,
-                    x,
-                    f"'{x.target.id}' carries weights {o_fmt(carried[x.target.id])}; the pinball loss of quantile q needs {want} x (over: 1-q, under: q)"
-                    + (" — this is the loss of the opposite quantile 1-q" if _is_opposite(carried[x.target.id], want) else ""),
-                )
-        if ok and not carried:
-            ck.violated("C05.a", fi, s, "the multiplier returned by _epsilon is never applied: the asymmetric loss degenerates to the absolute error")
-        if fi is score:
-            _check_score_shape(ck, fi, eps_name)
+                keys = set(e1) | set(e2)
+                merged = {}
+                for k in keys:
+                    if k in e1 and k in e2:
+                        merged[k] = join(e1[k], e2[k])
+                    else:
+                        merged[k] = Opaque(True, "maybe-unbound")
+                env.clear(); env.update(merged)
+        elif isinstance(s, (ast.For, ast.While)):
+            saved = self.iter
+            prev = None
+            for it in range(1, 5):
+                self.iter = it
+                if isinstance(s, ast.For):
+                    self.assign(s.target, Hyper("loop"), env, fi, s)
+                r_ = []
+                self.exec_block(s.body, env, fi, r_)
+                rets.extend(r_)
+                snap = {k: v for k, v in env.items()}
+                if prev is not None and snap == prev:
+                    break
+                prev = snap
+            else:
+                self.problems.append((fi, s, "the loop does not reach a steady state in the abstract domain after 4 rounds: the quantities it updates change their dependence on the residuals / weights at every round"))
+            self.steady = self.iter
+            self.iter = saved
+            self.exec_block(s.orelse, env, fi, rets)
+        elif isinstance(s, (ast.With,)):
+            return self.exec_block(s.body, env, fi, rets)
+        elif isinstance(s, ast.Try):
+            d = self.exec_block(s.body, env, fi, rets)
+            self.exec_block(s.finalbody, env, fi, rets)
+            return d
+        elif isinstance(s, (ast.FunctionDef, ast.AsyncFunctionDef)):
+            f = getattr(s, "_finfo", None)
+            if f is not None:
+                env[s.name] = Closure(f.qualname)
+        # Pass, Assert, Break, Continue, Import, Global ...: no effect in the domain
+        return False
 
+    def assign(self, t, v, env, fi, s):
+        if isinstance(t, ast.Name):
+            env[t.id] = v
+        elif isinstance(t, (ast.Tuple, ast.List)):
+            if isinstance(v, Tup) and len(v.items) == len(t.elts):
+                for e, x in zip(t.elts, v.items):
+                    self.assign(e, x, env, fi, s)
+            else:
+                for e in t.elts:
+                    self.assign(e, Opaque(True, "unpack"), env, fi, s)
+        elif isinstance(t, ast.Attribute):
+            env[src_of(t)] = v
+        elif isinstance(t, ast.Subscript) and isinstance(t.value, ast.Name):
+            base = env.get(t.value.id)
+            m = self.eval(t.slice, env, fi)
+            if isinstance(base, Arr) and isinstance(m, Mask):
+                x = self.as_factor(v)
+                if x is None or not isinstance(x, Scal):
+                    env[t.value.id] = Opaque(True, "masked store")
+                else:
+                    env[t.value.id] = Arr(x.p if m.side == "over" else base.over, x.p if m.side == "under" else base.under, base.de, base.ds, base.clip, base.taint)
+            elif isinstance(base, (Arr,)):
+                env[t.value.id] = Opaque(True, "partial store")
 
-def _is_opposite(o: Orient, factor: Fraction) -> bool:
-    return o["over"] == p_mul(REQUIRED["under"], p_const(factor)) and o["under"] == p_mul(REQUIRED["over"], p_const(factor))
+    def augassign(self, s: ast.AugAssign, env, fi):
+        t = s.target
+        v = self.eval(s.value, env, fi)
+        if isinstance(t, ast.Name):
+            cur = env.get(t.id, Opaque(True, t.id))
+            env[t.id] = self.binop(s.op, cur, v, s, fi)
+        elif isinstance(t, ast.Subscript) and isinstance(t.value, ast.Name):
+            base = env.get(t.value.id)
+            m = self.eval(t.slice, env, fi)
+            if isinstance(base, Arr) and isinstance(m, Mask) and isinstance(v, Scal) and isinstance(s.op, (ast.Mult, ast.Div)):
+                f = p_mul if isinstance(s.op, ast.Mult) else p_div
+                try:
+                    if m.side == "over":
+                        env[t.value.id] = Arr(f(base.over, v.p), base.under, base.de, base.ds, base.clip, base.taint)
+                    else:
+                        env[t.value.id] = Arr(base.over, f(base.under, v.p), base.de, base.ds, base.clip, base.taint)
+                except Unsupported:
+                    env[t.value.id] = Opaque(True, "masked update")
+            elif isinstance(base, Arr):
+                env[t.value.id] = Opaque(True, f"partial update {src_of(s)}")
+        elif isinstance(t, ast.Attribute):
+            env[src_of(t)] = Opaque(True, "attr update")
 
-
-def _roles(repo, fi: FunctionInfo, a0, a1):
-    def root(e):
-        if isinstance(e, ast.Name):
-            return e.id
+    # ----------------------------------------------------------- expressions
+    def truth(self, test, env, fi) -> Optional[bool]:
+        if isinstance(test, ast.UnaryOp) and isinstance(test.op, ast.Not):
+            t = self.truth(test.operand, env, fi)
+            return None if t is None else (not t)
+        if isinstance(test, ast.BoolOp):
+            vals = [self.truth(v, env, fi) for v in test.values]
+            if isinstance(test.op, ast.And):
+                if any(v is False for v in vals):
+                    return False
+                return True if all(v is True for v in vals) else None
+            if any(v is True for v in vals):
+                return True
+            return False if all(v is False for v in vals) else None
+        if isinstance(test, ast.Compare) and len(test.ops) == 1:
+            l = self.eval(test.left, env, fi)
+            r = self.eval(test.comparators[0], env, fi)
+            op = test.ops[0]
+            if isinstance(op, (ast.Is, ast.IsNot)):
+                other = l if isinstance(r, NoneV) else (r if isinstance(l, NoneV) else None)
+                if other is not None or (isinstance(l, NoneV) and isinstance(r, NoneV)):
+                    n = True if (isinstance(l, NoneV) and isinstance(r, NoneV)) else is_none(other)
+                    if n is None:
+                        return None
+                    return n if isinstance(op, ast.Is) else (not n)
+                return None
+            if isinstance(op, (ast.Eq, ast.NotEq)) and isinstance(l, Scal) and isinstance(r, Scal):
+                # q generic: q == c is false for the generic quantile
+                if l.p[1] == 0 and r.p[1] == 0:
+                    eq = l.p == r.p
+                elif (l.p[1] != 0) != (r.p[1] != 0):
+                    eq = False
+                else:
+                    eq = l.p == r.p
+                return eq if isinstance(op, ast.Eq) else (not eq)
+            return None
+        v = self.eval(test, env, fi)
+        if isinstance(v, NoneV):
+            return False
         return None
 
-    r0 = root(a0)
-    # predictions: `X @ beta`, self.predict(X) or a local defined from them
-    def is_pred(e, depth=0):
+    def as_factor(self, v):
+        return v
+
+    def eval(self, e, env, fi):
         if e is None:
-            return False
-        if isinstance(e, ast.BinOp) and isinstance(e.op, ast.MatMult):
-            return True
-        if isinstance(e, ast.Call) and src_of(e.func) in ("self.predict", "numpy.dot"):
-            return True
-        if isinstance(e, ast.Name) and depth < 2:
-            for s in own_nodes(fi.node):
-                if isinstance(s, ast.Assign) and any(isinstance(t, ast.Name) and t.id == e.id for t in s.targets):
-                    return is_pred(s.value, depth + 1)
-        return False
+            return NoneV()
+        if isinstance(e, ast.Constant):
+            if e.value is None:
+                return NoneV()
+            if isinstance(e.value, bool):
+                return Hyper(str(e.value))
+            if isinstance(e.value, (int, float)):
+                return Scal(P(Fraction(str(e.value))))
+            return Hyper("const")
+        if isinstance(e, ast.Name):
+            if e.id in env:
+                return env[e.id]
+            return Opaque(False, e.id) if e.id in ("numpy", "np", "True", "False") else Opaque(True, e.id)
+        if isinstance(e, ast.Attribute):
+            key = src_of(e)
+            if key in env:
+                return env[key]
+            base = self.eval(e.value, env, fi)
+            if isinstance(base, SelfV):
+                if e.attr == "quantile":
+                    return self.q()
+                return Hyper(e.attr)
+            if isinstance(base, Role):
+                if e.attr in ("shape", "ndim", "size", "dtype"):
+                    return Hyper("shape")
+                return base if e.attr in ("values", "T", "A") or base.kind == "X" else Opaque(True, key)
+            if isinstance(base, Arr) and e.attr in ("shape", "size", "ndim", "dtype"):
+                return Hyper("shape")
+            if isinstance(base, Hyper):
+                return Hyper(base.name + "." + e.attr)
+            if isinstance(base, Inner):
+                return Opaque(True, "solution of the inner solver")
+            return Opaque(getattr(base, "taint", True), key)
+        if isinstance(e, ast.Subscript):
+            base = self.eval(e.value, env, fi)
+            if isinstance(base, Hyper):
+                i = e.slice.value if isinstance(e.slice, ast.Constant) else "?"
+                return Hyper(f"{base.name}[{i}]")
+            if isinstance(base, Tup):
+                i = e.slice.value if isinstance(e.slice, ast.Constant) and isinstance(e.slice.value, int) else None
+                if i is not None and -len(base.items) <= i < len(base.items):
+                    return base.items[i]
+            if isinstance(base, Role) and base.kind == "X":
+                return base
+            return Opaque(True, src_of(e))
+        if isinstance(e, ast.Tuple):
+            return Tup(tuple(self.eval(x, env, fi) for x in e.elts))
+        if isinstance(e, ast.List):
+            vals = [self.eval(x, env, fi) for x in e.elts]
+            if any(isinstance(v, Role) and v.kind == "X" for v in vals):
+                return Role("X")
+            return Opaque(any(getattr(v, "taint", True) for v in vals), "list")
+        if isinstance(e, ast.IfExp):
+            t = self.truth(e.test, env, fi)
+            if t is True:
+                return self.eval(e.body, env, fi)
+            if t is False:
+                return self.eval(e.orelse, env, fi)
+            return join(self.eval(e.body, env, fi), self.eval(e.orelse, env, fi))
+        if isinstance(e, ast.UnaryOp):
+            v = self.eval(e.operand, env, fi)
+            if isinstance(e.op, ast.USub):
+                return self.binop(ast.Mult(), Scal(P(-1)), v, e, fi)
+            if isinstance(e.op, ast.Invert) and isinstance(v, Mask):
+                # the complement of a strict side mask also holds exact fits; treated as the other side
+                return Mask("under" if v.side == "over" else "over")
+            return Opaque(getattr(v, "taint", True), src_of(e))
+        if isinstance(e, ast.BinOp):
+            return self.binop(e.op, self.eval(e.left, env, fi), self.eval(e.right, env, fi), e, fi)
+        if isinstance(e, ast.Compare) and len(e.ops) == 1:
+            l = self.eval(e.left, env, fi)
+            r = self.eval(e.comparators[0], env, fi)
+            op = e.ops[0]
+            flip = False
+            if isinstance(r, (Sign, Diff)) and isinstance(l, Scal):
+                l, r, flip = r, l, True
+            if isinstance(l, (Sign, Diff)) and isinstance(r, Scal) and r.p == P(0):
+                pos = isinstance(op, (ast.Gt, ast.GtE))
+                neg = isinstance(op, (ast.Lt, ast.LtE))
+                if pos or neg:
+                    if flip:
+                        pos = not pos
+                    return Mask("over" if pos == l.over_pos else "under")
+            if isinstance(l, Role) and isinstance(r, Role) and {l.kind, r.kind} == {"pred", "target"}:
+                gt = isinstance(op, (ast.Gt, ast.GtE))
+                lt = isinstance(op, (ast.Lt, ast.LtE))
+                if gt or lt:
+                    pred_left = l.kind == "pred"
+                    return Mask("over" if (gt == pred_left) else "under")
+            t = self.truth(e, env, fi)
+            return Hyper(str(t)) if t is not None else Opaque(True, src_of(e))
+        if isinstance(e, ast.Call):
+            return self.call(e, env, fi)
+        if isinstance(e, ast.JoinedStr):
+            return Hyper("str")
+        if isinstance(e, ast.BoolOp):
+            return Opaque(True, src_of(e))
+        return Opaque(True, type(e).__name__)
 
-    def is_target(e):
-        nm = root(e)
-        if nm is None:
-            return False
-        if nm in ("y", "Y", "y_true"):
-            return True
-        return False
+    def binop(self, op, a, b, node, fi):
+        # residuals
+        if isinstance(op, ast.Sub) and isinstance(a, Role) and isinstance(b, Role):
+            if (a.kind, b.kind) == ("pred", "target"):
+                return Diff(True)
+            if (a.kind, b.kind) == ("target", "pred"):
+                return Diff(False)
+        if isinstance(op, ast.MatMult):
+            if isinstance(a, Role) and a.kind == "X":
+                return Role("pred")
+            return Opaque(True, "matmul")
+        if isinstance(op, ast.Mult) and isinstance(a, Diff) and isinstance(b, Sign) or isinstance(op, ast.Mult) and isinstance(a, Sign) and isinstance(b, Diff):
+            return Arr(P(1), P(1), 1, 0) if a.over_pos == b.over_pos else Opaque(True, "-|r|")
+        if isinstance(a, Scal) and isinstance(b, Scal):
+            try:
+                if isinstance(op, ast.Add):
+                    return Scal(p_add(a.p, b.p))
+                if isinstance(op, ast.Sub):
+                    return Scal(p_sub(a.p, b.p))
+                if isinstance(op, ast.Mult):
+                    return Scal(p_mul(a.p, b.p))
+                if isinstance(op, ast.Div):
+                    return Scal(p_div(a.p, b.p))
+            except Unsupported:
+                return Opaque(False, "polynomial")
+            return Hyper("arith")
+        if isinstance(a, (Hyper, Scal)) and isinstance(b, (Hyper, Scal)):
+            return Hyper("arith")
+        # thresholds: data-independent array times data-independent scalar
+        def plain(x):
+            return isinstance(x, Arr) and x.de == 0 and x.ds == 0 and x.over == x.under and x.over[1] == 0 and not x.taint
+        if isinstance(op, (ast.Mult, ast.Div, ast.Add)):
+            for x, y in ((a, b), (b, a)):
+                if plain(x) and isinstance(y, Hyper):
+                    return Thresh(False)
+                if isinstance(x, Thresh) and isinstance(y, (Hyper, Scal)):
+                    return x
+                if isinstance(x, Thresh) and isinstance(y, (Opaque, Role, Sum)):
+                    return Thresh(True)
+                if plain(x) and isinstance(y, (Opaque, Role)) and getattr(y, "taint", True):
+                    return Thresh(True)
+        # arrays
+        if isinstance(a, Arr) or isinstance(b, Arr):
+            try:
+                return self.arr_op(op, a, b)
+            except Unsupported as u:
+                return Opaque(True, f"{type(op).__name__}: {u}")
+        if isinstance(op, ast.Div) and isinstance(a, Sum):
+            if isinstance(b, Hyper) and b.name in ("shape[0]", "len"):
+                return Sum(a.arr, "n" if a.div == "" else "other")
+            if isinstance(b, Scal) and b.p[1] == 0 and b.p[0] != 0:
+                return Sum(Arr(p_div(a.arr.over, b.p), p_div(a.arr.under, b.p), a.arr.de, a.arr.ds, a.arr.clip, a.arr.taint), a.div)
+            return Sum(a.arr, "other")
+        if isinstance(op, ast.Mult) and (isinstance(a, Sum) and isinstance(b, Scal) or isinstance(b, Sum) and isinstance(a, Scal)):
+            s, k = (a, b) if isinstance(a, Sum) else (b, a)
+            try:
+                return Sum(Arr(p_mul(s.arr.over, k.p), p_mul(s.arr.under, k.p), s.arr.de, s.arr.ds, s.arr.clip, s.arr.taint), s.div)
+            except Unsupported:
+                return Opaque(True, "sum scale")
+        ta = getattr(a, "taint", not isinstance(a, (Hyper, Scal)))
+        tb = getattr(b, "taint", not isinstance(b, (Hyper, Scal)))
+        return Opaque(bool(ta or tb), "binop")
 
-    if is_target(a0) and is_pred(a1):
-        return True, ""
-    if is_pred(a0) and is_target(a1):
-        return False, f"predictions first and targets second ({src_of(a0)}, {src_of(a1)})"
-    return False, f"arguments whose roles cannot be established ({src_of(a0) if a0 is not None else None}, {src_of(a1) if a1 is not None else None})"
+    def arr_op(self, op, a, b):
+        def lift(x):
+            if isinstance(x, Arr):
+                return x
+            if isinstance(x, Scal):
+                return Arr(x.p, x.p)
+            return None
+        A, B = lift(a), lift(b)
+        if A is None or B is None:
+            other = b if A is not None else a
+            arr = A if A is not None else B
+            if isinstance(other, (Hyper,)) and isinstance(op, (ast.Mult, ast.Div)):
+                # scaling by a data-independent constant: proportionality is kept, exact scale is lost
+                return Arr(arr.over, arr.under, arr.de, arr.ds, arr.clip, True)
+            if isinstance(other, Thresh) and isinstance(op, ast.Add) and arr.de >= 1:
+                return Arr(arr.over, arr.under, arr.de, arr.ds, "data" if other.taint else "hyper", arr.taint)
+            raise Unsupported(f"array with {type(other).__name__}")
+        clip = A.clip or B.clip
+        taint = A.taint or B.taint
+        if isinstance(op, ast.Mult):
+            return Arr(p_mul(A.over, B.over), p_mul(A.under, B.under), A.de + B.de, A.ds + B.ds, clip, taint)
+        if isinstance(op, ast.Div):
+            return Arr(p_div(A.over, B.over), p_div(A.under, B.under), A.de - B.de, A.ds - B.ds, clip, taint)
+        if isinstance(op, (ast.Add, ast.Sub)):
+            if (A.de, A.ds) != (B.de, B.ds):
+                raise Unsupported("sum of terms of different degrees")
+            f = p_add if isinstance(op, ast.Add) else p_sub
+            return Arr(f(A.over, B.over), f(A.under, B.under), A.de, A.ds, clip, taint)
+        if isinstance(op, ast.Pow) and isinstance(b, Scal) and b.p[1] == 0 and b.p[0].denominator == 1:
+            k = int(b.p[0])
+            if k == 1:
+                return A
+            if k == -1:
+                return Arr(p_div(P(1), A.over), p_div(P(1), A.under), -A.de, -A.ds, clip, taint)
+        raise Unsupported(type(op).__name__)
+
+    def call(self, e: ast.Call, env, fi):
+        f = e.func
+        name = src_of(f)
+        short = name.split(".")[-1]
+        args = [self.eval(a, env, fi) for a in e.args if not isinstance(a, ast.Starred)]
+        kws = {k.arg: self.eval(k.value, env, fi) for k in e.keywords if k.arg}
+        a0 = args[0] if args else None
+        is_np = isinstance(f, ast.Attribute) and isinstance(f.value, ast.Name) and f.value.id in ("numpy", "np")
+        if is_np or isinstance(f, ast.Name):
+            if short in ("abs", "absolute", "fabs"):
+                if isinstance(a0, Diff):
+                    return Arr(P(1), P(1), 1, 0)
+                if isinstance(a0, Arr):
+                    return a0
+                return Opaque(True, "abs")
+            if short == "sign" and isinstance(a0, Diff):
+                return Sign(a0.over_pos)
+            if short in ("ones", "ones_like"):
+                return ONE
+            if short in ("full", "full_like") and len(args) >= 2 and isinstance(args[1], Scal):
+                return Arr(args[1].p, args[1].p)
+            if short == "reciprocal" and isinstance(a0, Arr):
+                try:
+                    return Arr(p_div(P(1), a0.over), p_div(P(1), a0.under), -a0.de, -a0.ds, a0.clip, a0.taint)
+                except Unsupported:
+                    return Opaque(True, "reciprocal")
+            if short in ("maximum", "fmax", "clip", "minimum", "fmin") and len(args) >= 2:
+                arrs = [x for x in args if isinstance(x, Arr) and x.de != 0]
+                others = [x for x in args if not (isinstance(x, Arr) and x.de != 0) and not isinstance(x, NoneV)]
+                if len(arrs) == 1:
+                    a = arrs[0]
+                    data = any(isinstance(o, Thresh) and o.taint or isinstance(o, (Opaque, Role, Sum, Diff)) and getattr(o, "taint", True) for o in others)
+                    return Arr(a.over, a.under, a.de, a.ds, "data" if data else "hyper", a.taint)
+            if short == "where" and len(args) == 3 and isinstance(a0, Mask):
+                x, y = args[1], args[2]
+                def sides(v):
+                    if isinstance(v, Scal):
+                        return Arr(v.p, v.p)
+                    return v if isinstance(v, Arr) else None
+                X, Y = sides(x), sides(y)
+                if X is not None and Y is not None and (X.de, X.ds) == (Y.de, Y.ds):
+                    if a0.side == "over":
+                        return Arr(X.over, Y.under, X.de, X.ds, X.clip or Y.clip, X.taint or Y.taint)
+                    return Arr(Y.over, X.under, X.de, X.ds, X.clip or Y.clip, X.taint or Y.taint)
+            if short in ("sum", "nansum") and isinstance(a0, Arr):
+                self.obs.append(("sum", fi, e, (a0,), self.iter))
+                return Sum(a0)
+            if short in ("mean", "average") and isinstance(a0, Arr):
+                return Sum(a0, "n")
+            if short in ("dot", "matmul") and isinstance(a0, Role) and a0.kind == "X":
+                return Role("pred")
+            if short in ("hstack", "column_stack", "concatenate", "asarray", "array", "ascontiguousarray", "c_") and a0 is not None:
+                if isinstance(a0, Role):
+                    return a0
+                return a0 if isinstance(a0, (Arr,)) else Opaque(True, short)
+            if short in ("range", "len", "isinstance", "hasattr", "print", "min", "max", "float", "int", "str"):
+                if short in ("max", "min", "float") and any(getattr(x, "taint", False) or isinstance(x, (Role, Sum, Arr, Diff)) for x in args):
+                    return Opaque(True, short)
+                return Hyper(short)
+        if short == "mean_absolute_error":
+            return MAE(a0, args[1] if len(args) > 1 else kws.get("y_pred"), kws.get("sample_weight", args[2] if len(args) > 2 else NoneV()))
+        if short == "LinearRegression" and not (isinstance(f, ast.Attribute) and f.attr != "LinearRegression"):
+            self.obs.append(("inner_ctor", fi, e, (), self.iter))
+            return Inner()
+        if isinstance(f, ast.Attribute):
+            recv = self.eval(f.value, env, fi)
+            if isinstance(recv, Inner):
+                if f.attr == "fit":
+                    b = bind(e, ["X", "y", "sample_weight"])
+                    vals = tuple(self.eval(b[k], env, fi) if k in b else NoneV() for k in ("X", "y", "sample_weight"))
+                    self.obs.append(("inner_fit", fi, e, vals, self.iter))
+                    return recv
+                return Opaque(True, "inner." + f.attr)
+            if isinstance(recv, Arr):
+                if f.attr == "sum":
+                    self.obs.append(("sum", fi, e, (recv,), self.iter))
+                    return Sum(recv)
+                if f.attr == "mean":
+                    return Sum(recv, "n")
+                if f.attr in ("copy", "ravel", "flatten", "astype", "reshape", "squeeze"):
+                    return recv
+            if isinstance(recv, (Role, Diff, Sign, Mask)) and f.attr in ("copy", "ravel", "flatten", "astype", "reshape", "squeeze"):
+                return recv
+            if isinstance(recv, SelfV) and f.attr == "predict" and args and isinstance(a0, Role) and a0.kind == "X":
+                return Role("pred")
+            if isinstance(recv, Hyper):
+                return Hyper("call")
+            if isinstance(recv, (Opaque, Role, Diff, Sum)) and not isinstance(self.repo, type(None)) and f.attr in ("max", "min", "mean", "std", "sum", "ptp", "var"):
+                return Opaque(True, f"{f.attr} of data")
+        else:
+            recv = None
+        # repository functions
+        callee = None
+        if isinstance(f, ast.Name) and isinstance(env.get(f.id), Closure):
+            callee = self.repo.all_functions.get(env[f.id].qualname)
+        if callee is None:
+            callee = resolve_call(self.repo, fi, e)
+        if callee is not None and callee.name != "__init__":
+            return self.call_function(callee, e, fi, env, recv)
+        return Opaque(True, name)
 
 
-def _check_score_shape(ck, score: FunctionInfo, eps_name: str):
-    # return epsilon.sum() / X.shape[0]
-    found = False
-    for r in own_nodes(score.node):
-        if isinstance(r, ast.Return) and isinstance(r.value, ast.BinOp) and isinstance(r.value.op, ast.Div):
-            num, den = r.value.left, r.value.right
-            if src_of(num) == f"{eps_name}.sum()":
-                found = True
-                if src_of(den) in ("X.shape[0]", "len(X)", "y.shape[0]", "len(y)"):
-                    ck.holds("C05.a", score, r, "score = sum of weighted absolute errors / n (a mean)")
-                else:
-                    ck.violated("C05.a", score, r, f"score divides by {src_of(den)}, not by the number of samples: it is not the mean loss")
-    if not found:
-        ck.unknown("C05.a", score, "return epsilon.sum() / n", "mean-of-loss return not found")
-    # q == 0.5 falls back to the mean absolute error (= 2 x pinball loss of 0.5)
-    for r in own_nodes(score.node):
-        if isinstance(r, ast.Return) and isinstance(r.value, ast.Call) and src_of(r.value.func).endswith("mean_absolute_error"):
-            a = [src_of(x) for x in r.value.args[:2]]
-            pred_names = {t.id for s in own_nodes(score.node) if isinstance(s, ast.Assign) and isinstance(s.value, ast.Call) and src_of(s.value.func) == "self.predict" for t in s.targets if isinstance(t, ast.Name)}
-            if len(a) == 2 and a[0] == "y" and a[1] in pred_names:
-                sw = kwarg(r.value, "sample_weight")
-                ck.verdict(sw is not None and src_of(sw) == "sample_weight", "C05.a", score, r, "q = 0.5: mean absolute error of (y, prediction) with the caller's weights", "q = 0.5 branch ignores sample_weight")
+# -------------------------------------------------------------- obligations
+def _req(half: bool):
+    if half:
+        return P(Fraction(1, 2)), P(Fraction(1, 2))
+    return P(1, -1), P(0, 1)
+
+
+def _proportional(a: Arr, half: bool) -> Optional[Fraction]:
+    """k > 0 with (over, under) == k * (1-q, q); None otherwise"""
+    ro, ru = _req(half)
+    if half:
+        if a.over == a.under and a.over[1] == 0 and a.over[0] > 0:
+            return a.over[0] / ro[0]
+        return None
+    k = a.under[1]
+    if k > 0 and a.under == (Fraction(0), k) and a.over == (k, -k):
+        return k
+    return None
+
+
+def _opposite(a: Arr) -> bool:
+    k = a.over[1]
+    return k > 0 and a.over == (Fraction(0), k) and a.under == (k, -k)
+
+
+def _cfg_name(half, sw):
+    return f"q {'= 0.5' if half else 'generic'}, sample_weight {'given' if sw else 'None'}"
+
+
+def check_fit_score(ck, repo):
+    ci = repo.cls(MOD, CLS)
+    fit, score = ci.methods.get("fit"), ci.methods.get("score")
+    if fit is None or score is None:
+        raise AnalysisError("anchor vanished: QuantileLinearRegression.fit/score")
+    n_fit = n_sum = 0
+    for half in (False, True):
+        for sw in (True, False):
+            cfg = _cfg_name(half, sw)
+            it = Interp(repo, half, sw)
+            it.steady = 0
+            it.run_entry(fit)
+            for qn in sorted(it.visited):
+                if qn in repo.all_functions:
+                    ck.touch(repo.all_functions[qn])
+            for f_, node, msg in it.problems:
+                ck.violated("C05.c", f_, node, f"[{cfg}] {msg}")
+            fits = [o for o in it.obs if o[0] == "inner_fit"]
+            if not fits:
+                ck.unknown("C05.c", fit, "inner LinearRegression.fit(...)", f"[{cfg}] no call of the inner least squares was reached by the abstract interpretation")
+                continue
+            last = max(o[4] for o in fits)
+            for kind, f_, node, vals, iteration in fits:
+                Xv, yv, wv = vals
+                if iteration == last:
+                    ck.verdict(isinstance(yv, Role) and yv.kind == "target", "C05.c", f_, node, f"[{cfg}] the inner solver is fitted on the targets given to fit", f"[{cfg}] the inner least squares is fitted on {yv}, not on the targets y")
+                    ck.verdict(isinstance(Xv, Role) and Xv.kind == "X", "C05.c", f_, f"{src_of(node)} design", f"[{cfg}] the inner solver is fitted on the design matrix built from X", f"[{cfg}] the inner least squares is fitted on {Xv}, not on the design matrix built from X")
+                if iteration != last or last < 2:
+                    continue
+                n_fit += 1
+                if not isinstance(wv, Arr):
+                    ck.violated("C05.a", f_, node, f"[{cfg}] the weights of the inner least squares are {wv}; an IRLS step for the pinball loss needs (over: 1-q, under: q) * sample_weight / |residual|")
+                    continue
+                k = _proportional(wv, half)
+                ck.verdict(k is not None, "C05.a", f_, node, f"[{cfg}] IRLS weights {wv.fmt()}: proportional to (over: 1-q, under: q)", f"[{cfg}] the weights of the inner least squares are {wv.fmt()}; minimising the pinball loss of q needs (over: 1-q, under: q)" + (" — this fits the opposite quantile 1-q" if _opposite(wv) else ""))
+                want_ds = 1 if sw else 0
+                ck.verdict(wv.de == -1 and wv.ds == want_ds, "C05.c", f_, f"{src_of(node)} degrees", f"[{cfg}] IRLS weights ~ sample_weight^{want_ds} / |residual|", f"[{cfg}] the weights of the inner least squares are {wv.fmt()}; an IRLS step needs sample_weight^{want_ds} * |residual|^-1 — the caller's weights cancel, count twice or the residual enters with the wrong power")
+                ck.verdict(wv.clip == "hyper", "C05.c", f_, f"{src_of(node)} clipping", f"[{cfg}] residuals are clipped by a data-independent threshold before the division", f"[{cfg}] the residuals are {'clipped by a threshold that depends on the data: for targets far from zero every residual is clipped and the fit becomes a least-squares (expectile) fit' if wv.clip == 'data' else 'not clipped before the division'}")
+            sums = [o for o in it.obs if o[0] == "sum" and o[4] == last and o[1].qualname in it.visited and isinstance(o[3][0], Arr) and o[3][0].de >= 1 and o[1].name != "score"]
+            for kind, f_, node, vals, iteration in sums:
+                a = vals[0]
+                n_sum += 1
+                want_ds = 1 if sw else 0
+                ck.verdict(_proportional(a, half) is not None and a.de == 1 and a.ds == want_ds, "C05.c", f_, node, f"[{cfg}] monitored error = sum of {a.fmt()}: the weighted pinball loss", f"[{cfg}] the error monitored for convergence sums {a.fmt()}, not (over: 1-q, under: q) * sample_weight^{want_ds} * |residual|")
+            # score
+            it2 = Interp(repo, half, sw)
+            r = it2.run_entry(score)
+            if half:
+                ok = isinstance(r, MAE) and r.a == Role("target") and r.b == Role("pred") and (r.sw == Arr(P(1), P(1), 0, 1) if sw else isinstance(r.sw, NoneV))
+                ok = ok or (isinstance(r, Sum) and r.div == "n" and r.arr.over == P(1) and r.arr.under == P(1) and r.arr.de == 1 and r.arr.ds == (1 if sw else 0))
+                ck.verdict(ok, "C05.a", score, f"score [{cfg}]", "q = 0.5: the (weighted) mean absolute error of (y, prediction)", f"[{cfg}] score returns {r}, not the mean absolute error of (y, self.predict(X)) with the caller's weights")
             else:
-                ck.violated("C05.a", score, r, f"q = 0.5 branch scores {a}, not (y, self.predict(X))")
+                if not isinstance(r, Sum):
+                    ck.violated("C05.a", score, f"score [{cfg}]", f"[{cfg}] score returns {r}; expected sum(2 * (over: 1-q, under: q) * sample_weight * |residual|) / n")
+                    continue
+                a = r.arr
+                k = _proportional(a, half)
+                want_ds = 1 if sw else 0
+                ck.verdict(k == 2 and a.de == 1 and a.ds == want_ds and not a.taint, "C05.a", score, f"score [{cfg}] summand", f"summand {a.fmt()} = twice the pinball loss of q", f"[{cfg}] score sums {a.fmt()}; twice the pinball loss of q is (over: 2-2*q, under: 2*q) * sample_weight^{want_ds} * |residual|" + (" — this is the loss of the opposite quantile 1-q" if _opposite(a) else ""))
+                ck.verdict(r.div == "n", "C05.a", score, f"score [{cfg}] mean", "the sum is divided by the number of samples", f"[{cfg}] score does not divide the sum by the number of samples: it is not the mean loss")
+    if n_fit < 4:
+        ck.unknown("C05.a", fit, "steady-state inner fit", f"only {n_fit} of 4 configurations reached a steady-state call of the inner solver")
+
+
+# -------------------------------------------------------------------- C05.b
+def _split(repo, fi, e, at, conds=frozenset(), depth=0):
+    """[(branch facts, expression)] for an expression whose value is chosen by
+    conditional expressions or by assignments in different branches"""
+    ex = expander(repo)
+    if depth > 4:
+        return [(conds, e, at)]
+    if isinstance(e, ast.IfExp):
+        return _split(repo, fi, e.body, at, conds | frozenset(atoms(ex.norm_expr(e.test, fi, at), True)), depth + 1) + _split(repo, fi, e.orelse, at, conds | frozenset(atoms(ex.norm_expr(e.test, fi, at), False)), depth + 1)
+    if isinstance(e, ast.Name):
+        rd = ex.rd(fi)
+        node = rd.node_of(at)
+        dns = [d for d in (rd.def_nodes(e.id, node) if node is not None else []) if d is not None]
+        out = []
+        if dns and all(d.kind == "stmt" and isinstance(d.ast, ast.Assign) and len(d.ast.targets) == 1 and isinstance(d.ast.targets[0], ast.Name) for d in dns) and len(rd.reaching(e.id, node)) == len(dns):
+            for d in dns:
+                c = conds_at(repo, fi, d.ast) if len(dns) > 1 else frozenset()
+                out += _split(repo, fi, d.ast.value, d.ast, conds | c, depth + 1)
+            return out
+    return [(conds, e, at)]
 
 
 def check_b(ck, repo):
     ci = repo.cls(MOD, CLS)
     fit = ci.methods["fit"]
-    # inner LinearRegression(...)
-    inner = [c for c in own_nodes_incl_lambda(fit.node) if isinstance(c, ast.Call) and src_of(c.func) == "LinearRegression"]
-    if len(inner) != 1:
-        ck.unknown("C05.b", fit, "LinearRegression(...)", f"expected one inner LinearRegression, found {len(inner)}")
+    ex = expander(repo)
+    fns = [fit] + [f for f in ci.methods.values() if f is not fit]
+    ctor = [(f, c) for f in fns for c in calls(f, lambda c: src_of(c.func).split(".")[-1] == "LinearRegression" and not src_of(c.func).endswith("__init__"))]
+    if len(ctor) != 1:
+        ck.unknown("C05.b", fit, "LinearRegression(...)", f"expected one inner LinearRegression, found {len(ctor)}")
     else:
-        c = inner[0]
-        fi_kw, pos_kw = kwarg(c, "fit_intercept"), kwarg(c, "positive")
-        ck.verdict(fi_kw is not None and const_value(fi_kw) is False, "C05.b", fit, c, "inner solver has fit_intercept=False (the ones column carries the intercept)", "inner LinearRegression does not pass fit_intercept=False: the intercept is fitted twice")
-        ck.verdict(pos_kw is not None and is_self_attr(pos_kw, "positive"), "C05.b", fit, f"positive={src_of(pos_kw) if pos_kw is not None else None}", "positive=self.positive forwarded", "positive=True would not constrain the coefficients: the option is not forwarded to the inner solver")
-    # ones column only under self.fit_intercept; intercept_ = 0 otherwise
-    for s in own_nodes(fit.node):
-        if isinstance(s, ast.Assign) and any(isinstance(t, ast.Name) and t.id == "Xm" for t in s.targets):
-            tests = enclosing_tests(s, fit.node)
-            guarded = [(t, pol) for t, pol in tests if is_self_attr(t, "fit_intercept")]
-            has_ones = any(isinstance(c, ast.Call) and src_of(c.func).endswith("ones") for c in ast.walk(s.value))
-            if has_ones:
-                ck.verdict(bool(guarded) and guarded[0][1], "C05.b", fit, s, "ones column appended only when fit_intercept", "a ones column is appended although fit_intercept may be False")
-            else:
-                ck.verdict(bool(guarded) and not guarded[0][1] and src_of(s.value) == "X", "C05.b", fit, s, "design matrix is X itself when fit_intercept is False", "without intercept the design matrix is not X itself")
-        if isinstance(s, ast.Assign) and any(is_self_attr(t, "intercept_") for t in s.targets):
-            tests = enclosing_tests(s, fit.node)
-            guarded = [(t, pol) for t, pol in tests if is_self_attr(t, "fit_intercept")]
-            if guarded and not guarded[0][1]:
-                ck.verdict(isinstance(s.value, ast.Constant) and s.value.value in (0, 0.0), "C05.b", fit, s, "intercept_ is the literal 0 without intercept", f"fit_intercept=False stores intercept_ = {src_of(s.value)}")
-            elif guarded and guarded[0][1]:
-                ck.verdict(src_of(s.value) == "beta[-1]", "C05.b", fit, s, "intercept_ is the coefficient of the ones column (appended last)", f"with intercept, intercept_ = {src_of(s.value)} is not the coefficient of the appended ones column")
-        if isinstance(s, ast.Assign) and any(is_self_attr(t, "coef_") for t in s.targets):
-            tests = enclosing_tests(s, fit.node)
-            guarded = [(t, pol) for t, pol in tests if is_self_attr(t, "fit_intercept")]
-            if guarded and guarded[0][1]:
-                ck.verdict(src_of(s.value) == "beta[:-1]", "C05.b", fit, s, "coef_ drops the last (intercept) coefficient", f"coef_ = {src_of(s.value)} does not drop exactly the ones column")
-            elif guarded:
-                ck.verdict(src_of(s.value) == "beta", "C05.b", fit, s, "coef_ is the full solution without intercept", f"coef_ = {src_of(s.value)}")
-
-
-def check_c(ck, repo):
-    """monomial degrees of sample_weight and |residual| in the IRLS weight and
-    in the error that fit accumulates: W ~ sw^1 * eps^-1, error ~ sw^1 * eps^1;
-    the clipping threshold depends on the hyper-parameter delta only."""
-    ci = repo.cls(MOD, CLS)
-    fit = ci.methods["fit"]
-    eps_fn = ci.methods["_epsilon"]
-    cz = None
-    for f in repo.all_functions.values():
-        if f.parent is fit and f.name == "compute_z":
-            cz = f
-    if cz is None:
-        ck.unknown("C05.c", fit, "compute_z", "nested IRLS step not found")
+        f, c = ctor[0]
+        kw = {k.arg: ex.text(k.value, f, c) for k in c.keywords if k.arg}
+        for i, a in enumerate(c.args):
+            kw.setdefault(["fit_intercept", "copy_X", "n_jobs", "positive"][i] if i < 4 else f"arg{i}", ex.text(a, f, c))
+        ck.verdict(kw.get("fit_intercept") == "False", "C05.b", f, c, "inner solver has fit_intercept=False (the ones column carries the intercept)", "inner LinearRegression does not pass fit_intercept=False: the intercept is fitted twice")
+        ck.verdict(kw.get("positive") == "self.positive", "C05.b", f, f"positive={kw.get('positive')}", "positive=self.positive forwarded", "positive=True would not constrain the coefficients: the option is not forwarded to the inner solver")
+    T, F = cond_text("self.fit_intercept"), cond_text("self.fit_intercept", False)
+    # stored intercept / coefficients
+    layout = {}
+    for attr in ("intercept_", "coef_"):
+        n = 0
+        for s in sorted((x for x in own_nodes(fit.node) if isinstance(x, ast.Assign)), key=lambda x: x.lineno):
+            for t in s.targets:
+                pairs = []
+                if src_of(t) == f"self.{attr}":
+                    pairs = [s.value]
+                elif isinstance(t, (ast.Tuple, ast.List)) and isinstance(s.value, (ast.Tuple, ast.List)) and len(t.elts) == len(s.value.elts):
+                    pairs = [v for e, v in zip(t.elts, s.value.elts) if src_of(e) == f"self.{attr}"]
+                for v in pairs:
+                    base = conds_at(repo, fit, s)
+                    for conds, e, at in _split(repo, fit, v, s, base):
+                        txt = ex.text(e, fit, at)
+                        n += 1
+                        if F in conds:
+                            if attr == "intercept_":
+                                ck.verdict(txt in ("0", "0.0"), "C05.b", fit, s, "intercept_ is the literal 0 without intercept", f"fit_intercept=False stores intercept_ = {txt}")
+                            else:
+                                layout["coef_F"] = txt
+                        elif T in conds:
+                            layout[attr] = txt
+                            layout[attr + "_stmt"] = s
+                        else:
+                            ck.violated("C05.b", fit, s, f"{attr} = {txt} is stored without regard to fit_intercept")
+        if n == 0:
+            ck.unknown("C05.b", fit, f"self.{attr} = ...", f"no assignment to self.{attr} found in fit")
+    # design matrix of the inner fit
+    inner_fits = [c for c in calls(fit, lambda c: isinstance(c.func, ast.Attribute) and c.func.attr == "fit" and not src_of(c.func.value).startswith(("self", "super", "LinearRegression")))]
+    designs = {}
+    for c in inner_fits:
+        b = bind(c, ["X", "y", "sample_weight"])
+        if "X" not in b:
+            continue
+        for conds, e, at in _split(repo, fit, b["X"], c):
+            designs[T in conds, F in conds] = (ex.text(e, fit, at), c)
+    dT, dF = designs.get((True, False)), designs.get((False, True))
+    if dT is None or dF is None:
+        ck.unknown("C05.b", fit, "design matrix of the inner fit", f"cannot split the design matrix by fit_intercept: {designs}")
         return
-    # does _epsilon multiply epsilon by its sample_weight parameter?
-    eps_sw = 0
-    for s in own_nodes(eps_fn.node):
-        if isinstance(s, ast.AugAssign) and isinstance(s.op, ast.Mult) and src_of(s.target) == "epsilon" and src_of(s.value) == "sample_weight":
-            eps_sw = 1
-    deg: Dict[str, Tuple[int, int]] = {}  # name -> (eps degree, sw degree)
-    call = None
-    stmts = sorted([s for s in own_nodes(cz.node) if isinstance(s, (ast.Assign, ast.AugAssign))], key=lambda s: s.lineno)
-    problems = []
-    for s in stmts:
-        if isinstance(s, ast.Assign) and isinstance(s.value, ast.Call) and src_of(s.value.func).endswith("_epsilon") and isinstance(s.targets[0], ast.Tuple):
-            call = s.value
-            passed = len(call.args) >= 4 or kwarg(call, "sample_weight") is not None
-            if passed:
-                a = call.args[3] if len(call.args) >= 4 else kwarg(call, "sample_weight")
-                passed = not (isinstance(a, ast.Constant) and a.value is None)
-            deg[src_of(s.targets[0].elts[0])] = (1, eps_sw if passed else 0)
-        elif isinstance(s, ast.Assign) and len(s.targets) == 1 and isinstance(s.targets[0], ast.Name) and isinstance(s.value, ast.Call) and src_of(s.value.func) == "numpy.reciprocal":
-            inner = s.value.args[0]
-            base = None
-            if isinstance(inner, ast.Call) and src_of(inner.func) == "numpy.maximum":
-                for a in inner.args:
-                    if isinstance(a, ast.Name) and a.id in deg:
-                        base = deg[a.id]
-            if base is None:
-                problems.append((s, "weights are not 1 / max(|residual|, delta)"))
-            else:
-                deg[s.targets[0].id] = (-base[0], -base[1])
-        elif isinstance(s, ast.AugAssign) and isinstance(s.target, ast.Name) and s.target.id in deg and isinstance(s.op, ast.Mult):
-            v = src_of(s.value)
-            if v in ("sample_weight", "W"):
-                deg[s.target.id] = (deg[s.target.id][0], deg[s.target.id][1] + 1)
-    rets = [r for r in own_nodes(cz.node) if isinstance(r, ast.Return) and isinstance(r.value, ast.Tuple) and len(r.value.elts) == 2]
-    if call is None or not rets:
-        ck.unknown("C05.c", cz, "compute_z", "cannot follow the IRLS step")
+    Xp = fit.named_params[1]
+    ck.verdict(dF[0] == Xp, "C05.b", fit, f"design without intercept: {dF[0]}", "design matrix is X itself when fit_intercept is False", f"without intercept the design matrix is {dF[0]}, not X itself")
+    t = dT[0].replace(" ", "")
+    ones = f"numpy.ones(({Xp}.shape[0],1))"
+    last = t in (f"numpy.hstack([{Xp},{ones}])", f"numpy.hstack(({Xp},{ones}))", f"numpy.column_stack([{Xp},{ones}])", f"numpy.column_stack(({Xp},{ones}))", f"numpy.concatenate([{Xp},{ones}],axis=1)", f"numpy.c_[{Xp},{ones}]")
+    first = t in (f"numpy.hstack([{ones},{Xp}])", f"numpy.hstack(({ones},{Xp}))", f"numpy.column_stack([{ones},{Xp}])", f"numpy.column_stack(({ones},{Xp}))", f"numpy.concatenate([{ones},{Xp}],axis=1)", f"numpy.c_[{ones},{Xp}]")
+    ck.verdict(last or first, "C05.b", fit, f"design with intercept: {dT[0][:70]}", "a ones column is appended to X when fit_intercept", f"with intercept the design matrix is {dT[0]}: no recognised ones column next to X")
+    ic, cf = layout.get("intercept_"), layout.get("coef_")
+    if ic is None or cf is None:
+        ck.unknown("C05.b", fit, "intercept_/coef_ under fit_intercept", f"found {layout}")
         return
-    rw, re_ = [src_of(e) for e in rets[0].value.elts]
-    dW, dE = deg.get(rw), deg.get(re_)
-    # loop in fit: W, epsilon = compute_z(...); W *= sample_weight; epsilon *= sample_weight
-    loop_names = None
-    for s in own_nodes(fit.node):
-        if isinstance(s, ast.Assign) and isinstance(s.value, ast.Call) and src_of(s.value.func) == "compute_z" and isinstance(s.targets[0], ast.Tuple):
-            loop_names = [src_of(e) for e in s.targets[0].elts]
-            lstmt = s
-    if loop_names is None or dW is None or dE is None:
-        ck.unknown("C05.c", fit, "W, epsilon = compute_z(...)", "cannot follow the IRLS loop")
-        return
-    d = {loop_names[0]: dW, loop_names[1]: dE}
-    for s in sorted([x for x in own_nodes(fit.node) if isinstance(x, ast.AugAssign) and x.lineno > lstmt.lineno], key=lambda x: x.lineno):
-        if isinstance(s.target, ast.Name) and s.target.id in d and isinstance(s.op, ast.Mult) and src_of(s.value) == "sample_weight":
-            guarded = any(src_of(t) == "sample_weight is not None" and pol for t, pol in enclosing_tests(s, fit.node))
-            if guarded:
-                d[s.target.id] = (d[s.target.id][0], d[s.target.id][1] + 1)
-    for p_, msg in problems:
-        ck.violated("C05.c", cz, p_, msg)
-    wname, ename = loop_names
-    ck.verdict(d[wname] == (-1, 1), "C05.c", fit, f"IRLS weight {wname}: |residual|^{d[wname][0]} * sample_weight^{d[wname][1]}", "least-squares weights are sample_weight / |residual| (weighted absolute loss)", f"the weight handed to the inner least squares is |residual|^{d[wname][0]} * sample_weight^{d[wname][1]}; minimising the weighted pinball loss needs sample_weight^1 / |residual|^1 — the caller's weights cancel or count twice after the first iteration")
-    ck.verdict(d[ename] == (1, 1), "C05.c", fit, f"error {ename}: |residual|^{d[ename][0]} * sample_weight^{d[ename][1]}", "the monitored error is the weighted absolute loss", f"the error monitored for convergence is |residual|^{d[ename][0]} * sample_weight^{d[ename][1]}, not the weighted loss")
-    # the weight used by the inner fit is that W
-    fits = [c for c in own_nodes_incl_lambda(fit.node) if isinstance(c, ast.Call) and src_of(c.func) == "clr.fit"]
-    ck.verdict(len(fits) == 1 and [src_of(a) for a in fits[0].args] == ["Xm", "y", wname], "C05.c", fit, fits[0] if fits else "clr.fit(Xm, y, W)", "inner least squares is fitted on (Xm, y) with the IRLS weights", "the inner least squares does not receive (Xm, y, IRLS weights)")
-    # clipping threshold depends only on delta
-    rd = ReachingDefs(cz.node)
-    for s in stmts:
-        if isinstance(s, ast.Assign) and src_of(s.targets[0]) == "deltas":
-            at = rd.node_of(s)
-            dep = at is not None and rd.depends_on(s.value, at, {"Y", "beta", "W", "Xm"})
-            uses_delta = at is not None and rd.depends_on(s.value, at, {"delta"})
-            ck.verdict(uses_delta and not dep, "C05.c", cz, s, "clipping threshold is the hyper-parameter delta (data-independent)", "the clipping threshold of the IRLS weights depends on the data (targets/residuals): for targets far from zero every residual is clipped and the fit becomes a least-squares (expectile) fit")
-    dcall = [c for c in own_nodes_incl_lambda(fit.node) if isinstance(c, ast.Call) and src_of(c.func) == "compute_z"]
-    for c in dcall:
-        dk = kwarg(c, "delta")
-        ck.verdict(dk is not None and src_of(dk) == "self.delta", "C05.c", fit, f"delta={src_of(dk) if dk is not None else None}", "delta hyper-parameter forwarded", "self.delta is not forwarded to the IRLS step")
+    def base_of(txt, suffix):
+        return txt[: -len(suffix)] if txt.endswith(suffix) else None
+    if last:
+        B1, B2 = base_of(ic, "[-1]"), base_of(cf, "[:-1]")
+    else:
+        B1, B2 = base_of(ic, "[0]"), base_of(cf, "[1:]")
+    ck.verdict(B1 is not None and B1 == B2, "C05.b", fit, layout.get("intercept__stmt", "self.intercept_ = beta[-1]"), "intercept_ is the coefficient of the ones column and coef_ the others", f"with intercept, intercept_ = {ic} and coef_ = {cf} do not split the solution at the position of the ones column ({'last' if last else 'first'})")
+    ck.verdict(layout.get("coef_F") is not None and B1 is not None and layout.get("coef_F") == B1, "C05.b", fit, f"coef_ without intercept: {layout.get('coef_F')}", "coef_ is the full solution without intercept", f"without intercept coef_ = {layout.get('coef_F')} is not the full solution {B1}")
 
 
 def run(ck):
     repo = ck.repo
     for k, v in RULES.items():
         ck.rule(k, v)
-    check_a(ck, repo)
+    check_fit_score(ck, repo)
     check_b(ck, repo)
-    check_c(ck, repo)
-    ck.require_count("C05.c", 3, "weight degree, error degree, inner fit, threshold, delta forwarding")
-    ck.require_count("C05.a", 3, "_epsilon, two transforms in compute_z, one in score, score shape")
-    ck.require_count("C05.b", 3, "inner solver options, design matrix x2, intercept_ x2, coef_ x2")
+    ck.require_count("C05.a", 8, "IRLS weights in 4 configurations, score in 4 configurations")
+    ck.require_count("C05.c", 12, "degrees, clipping, targets, design in 4 configurations; monitored error")
+    ck.require_count("C05.b", 5, "inner solver options, design matrix x2, intercept_ x2, coef_ x2")
 
 
 _F = "mlinsights/mlmodel/quantile_regression.py"
@@ -476,18 +985,23 @@ WITNESSES = [
     {"name": "epsilon-diff-reversed", "file": _F, "rule": "C05.a", "old": "        diff = y_pred - y_true\n", "new": "        diff = y_true - y_pred\n"},
     {"name": "score-args-swapped", "file": _F, "rule": "C05.a", "old": "                y, pred, self.quantile, sample_weight\n", "new": "                pred, y, self.quantile, sample_weight\n"},
     {"name": "score-wrong-denominator", "file": _F, "rule": "C05.a", "old": "return epsilon.sum() / X.shape[0]", "new": "return epsilon.sum() / X.shape[1]"},
+    {"name": "score-weights-dropped", "file": _F, "rule": "C05.a", "old": "                y, pred, self.quantile, sample_weight\n", "new": "                y, pred, self.quantile\n"},
+    {"name": "score-half-ignores-weights", "file": _F, "rule": "C05.a", "old": "return mean_absolute_error(y, pred, sample_weight=sample_weight)", "new": "return mean_absolute_error(y, pred)"},
     {"name": "inner-fit-intercept", "file": _F, "rule": "C05.b", "old": "            fit_intercept=False,\n            copy_X=self.copy_X,", "new": "            fit_intercept=self.fit_intercept,\n            copy_X=self.copy_X,"},
     {"name": "positive-not-forwarded", "file": _F, "rule": "C05.b", "old": "            positive=self.positive,\n        )\n\n        W =", "new": "            positive=False,\n        )\n\n        W ="},
     {"name": "intercept-nonzero", "file": _F, "rule": "C05.b", "old": "            self.intercept_ = 0\n", "new": "            self.intercept_ = beta[-1]\n"},
-]
-WITNESSES += [
-    {"name": "weights-cancel", "file": _F, "rule": "C05.c", "old": "                Y, Xm @ beta, self.quantile\n", "new": "                Y, Xm @ beta, self.quantile, W\n"},
+    {"name": "intercept-wrong-column", "file": _F, "rule": "C05.b", "old": "            self.intercept_ = beta[-1]\n", "new": "            self.intercept_ = beta[0]\n"},
+    {"name": "ones-column-always", "file": _F, "rule": "C05.b", "old": "        else:\n            Xm = X\n", "new": "        else:\n            Xm = numpy.hstack([X, numpy.ones((X.shape[0], 1))])\n"},
+    {"name": "weights-cancel", "file": _F, "rule": "C05.a", "old": "                Y, Xm @ beta, self.quantile\n", "new": "                Y, Xm @ beta, self.quantile, W\n"},
     {"name": "weights-never-applied", "file": _F, "rule": "C05.c", "old": "                W *= sample_weight\n                epsilon *= sample_weight\n", "new": "                epsilon *= sample_weight\n"},
     {"name": "delta-scaled-by-targets", "file": _F, "rule": "C05.c", "old": "            deltas = numpy.ones(X.shape[0]) * delta\n", "new": "            deltas = numpy.ones(X.shape[0]) * delta * max(1.0, numpy.abs(Y).max())\n"},
+    {"name": "weights-squared-residual", "file": _F, "rule": "C05.c", "old": "            r = numpy.reciprocal(numpy.maximum(epsilon, deltas))\n", "new": "            r = numpy.reciprocal(numpy.maximum(epsilon, deltas)) ** 1\n            r = r * r\n"},
+    {"name": "error-not-weighted", "file": _F, "rule": "C05.c", "old": "                W *= sample_weight\n                epsilon *= sample_weight\n", "new": "                W *= sample_weight\n"},
 ]
 TWINS = [
     {"name": "score-factor-order", "file": _F, "old": "epsilon *= (1 - mult) * 2", "new": "epsilon *= 2 * (1 - mult)"},
     {"name": "epsilon-updates-reordered", "file": _F, "old": "            mult[sign > 0] *= quantile\n            mult[sign < 0] *= 1 - quantile\n", "new": "            mult[sign < 0] *= 1 - quantile\n            mult[sign > 0] *= quantile\n"},
     {"name": "epsilon-diff-reversed-consistently", "file": _F, "old": "        diff = y_pred - y_true\n        epsilon = numpy.abs(diff)\n        if quantile != 0.5:\n            sign = numpy.sign(diff)\n            mult = numpy.ones(y_true.shape[0])\n            mult[sign > 0] *= quantile\n            mult[sign < 0] *= 1 - quantile\n", "new": "        diff = y_true - y_pred\n        epsilon = numpy.abs(diff)\n        if quantile != 0.5:\n            sign = numpy.sign(diff)\n            mult = numpy.ones(y_true.shape[0])\n            mult[sign < 0] *= quantile\n            mult[sign > 0] *= 1 - quantile\n"},
+    {"name": "score-mean", "file": _F, "old": "            return epsilon.sum() / X.shape[0]", "new": "            total = numpy.sum(epsilon)\n            return total / len(X)"},
 ]
-MIN_WITNESSES = 9
+MIN_WITNESSES = 16
